@@ -1645,7 +1645,10 @@ int EGLPNUM_TYPENAME_ILLlib_delcols (
 
 	for (i = 0; i < num; i++)
 	{
-		if (dellist[i] < 0 || dellist[i] >= ncols) {
+		/* dellist holds structural (public) column indices */
+		if (dellist[i] < 0 || dellist[i] >= qslp->nstruct) {
+			QSlog("EGLPNUM_TYPENAME_ILLlib_delcols called with bad column index: %d",
+									dellist[i]);
 			rval = 1;
 			ILL_CLEANUP;
 		}
